@@ -12,6 +12,7 @@ import (
 	"time"
 
 	"mellium.im/xmlstream"
+	"mellium.im/xmpp"
 	"mellium.im/xmpp/jid"
 	"mellium.im/xmpp/stanza"
 
@@ -44,10 +45,17 @@ type peerStanza struct {
 	id   int
 	typ  byte // r result, e error (looked up); n normal, g get, t set (never looked up)
 	ns   byte // c: the stream's namespace, S: jabber:server spelled out
+	bad  bool // the content of the element cannot be read to its end (mismatched tags)
+	trunc bool // … because the input ends in the middle of it (token suffix T instead of X)
 }
 
 func (p peerStanza) tok() string {
 	t := fmt.Sprintf("p%c%d%c", p.kind, p.id, p.typ)
+	if p.trunc {
+		t += "T"
+	} else if p.bad {
+		t += "X"
+	}
 	if p.ns == 'S' {
 		t += "S"
 	}
@@ -58,6 +66,10 @@ func parsePeer(a string) peerStanza {
 	p := peerStanza{kind: a[1], ns: 'c'}
 	if a[len(a)-1] == 'S' {
 		p.ns = 'S'
+		a = a[:len(a)-1]
+	}
+	if a[len(a)-1] == 'X' || a[len(a)-1] == 'T' {
+		p.bad, p.trunc = true, a[len(a)-1] == 'T'
 		a = a[:len(a)-1]
 	}
 	p.typ = a[len(a)-1]
@@ -88,7 +100,14 @@ func (p peerStanza) xml() string {
 	if p.ns == 'S' {
 		ns = "jabber:server"
 	}
-	return fmt.Sprintf(`<%s xmlns="%s" id="q%d"%s><n xmlns="urn:verif"/></%s>`, kindLocal(p.kind), ns, p.id, t, kindLocal(p.kind))
+	body := `<n xmlns="urn:verif"/>`
+	if p.bad {
+		body = `<n xmlns="urn:verif"><a></b></n>` // mismatched tags: reading the content fails half way
+	}
+	if p.trunc {
+		return fmt.Sprintf(`<%s xmlns="%s" id="q%d"%s><n xmlns="urn:verif"><a>`, kindLocal(p.kind), ns, p.id, t)
+	}
+	return fmt.Sprintf(`<%s xmlns="%s" id="q%d"%s>%s</%s>`, kindLocal(p.kind), ns, p.id, t, body, kindLocal(p.kind))
 }
 
 // gateReader is the payload of a request: the first token is the stanza start,
@@ -150,6 +169,10 @@ type sessRun struct {
 	problems []string
 	fed     []peerStanza
 	hitRet  string // outcome of the hit requester when the serve loop went into offering
+	broken    bool // a transmission failed inside an element: every later write of the session fails
+	outClosed bool // the output stream was closed
+	dead      bool // Serve has returned (it had to write on an output that cannot take it)
+	badK      map[int]bool // peer stanzas whose content cannot be read to its end
 }
 
 type handlerFn func(t xmlstream.TokenReadEncoder, start *xml.StartElement) error
@@ -164,7 +187,7 @@ func newSessRun(r *common.Run, reqs []reqSpec) (*sessRun, error) {
 	if err != nil {
 		return nil, err
 	}
-	sr := &sessRun{r: r, ctl: ctl, rs: rs, reqs: reqs, table: map[int]int{}, serve: "idle", hit: -1}
+	sr := &sessRun{r: r, ctl: ctl, rs: rs, reqs: reqs, table: map[int]int{}, serve: "idle", hit: -1, badK: map[int]bool{}}
 	n := len(reqs)
 	sr.rstate = make([]string, n)
 	sr.outcome = make([]string, n)
@@ -271,7 +294,16 @@ func (sr *sessRun) start(i int) {
 	})
 	sr.table[rq.id] = i
 	sr.rstate[i] = "payload"
-	sr.wait(isEv(label, "park:payload"), label+" at payload gate")
+	// on a healthy output the call parks in its transmission; on a broken or closed one it
+	// fails at once
+	e, ok := sr.wait(func(e Ev) bool { return e.Who == label && (e.What == "park:payload" || strings.HasPrefix(e.What, "ret:")) }, label+" at payload gate or returned")
+	if ok && strings.HasPrefix(e.What, "ret:") {
+		if !sr.broken && !sr.outClosed {
+			sr.problem("requester %d returned at once on a healthy output", i)
+		}
+		sr.trace = append(sr.trace, "f"+strconv.Itoa(i))
+		sr.returned(i, e)
+	}
 }
 
 // returned handles the return event of requester i.
@@ -322,7 +354,8 @@ func (sr *sessRun) returned(i int, e Ev) {
 		if !sr.cancd[i] {
 			sr.r.Fail("outcome", "ctx-error-without-cancel", sr.lines(), fmt.Sprintf("requester %d returned context.Canceled but its context was never cancelled", i))
 		}
-	case errors.Is(err, errPayload):
+	case errors.Is(err, errPayload), errors.Is(err, xmpp.ErrOutputStreamClosed),
+		err != nil && strings.Contains(err.Error(), "abandoned in the middle of an element"):
 		sr.outcome[i] = "f"
 	default:
 		sr.outcome[i] = "other"
@@ -345,7 +378,7 @@ func (sr *sessRun) reqField() string {
 // act executes one schedule action; false if the action is not applicable in
 // the current (shadow) state.
 func (sr *sessRun) act(a string) bool {
-	num := func() int { n, _ := strconv.Atoi(strings.TrimRight(a[1:], "rengtS")); return n }
+	num := func() int { n, _ := strconv.Atoi(strings.TrimRight(a[1:], "rengtSXT")); return n }
 	switch a[0] {
 	case 'c':
 		i := num()
@@ -358,6 +391,9 @@ func (sr *sessRun) act(a string) bool {
 				return false
 			}
 		}
+		if (sr.serve == "lookup" || sr.serve == "offering" || sr.serve == "handedpark" || sr.serve == "waitclose") && sr.badK[sr.hitK] {
+			return false // Serve is about to end with a stream error, for which it needs the output lock
+		}
 		sr.trace = append(sr.trace, a)
 		sr.start(i)
 	case 'o', 'f':
@@ -368,6 +404,9 @@ func (sr *sessRun) act(a string) bool {
 		sr.trace = append(sr.trace, a)
 		label := "r" + strconv.Itoa(i)
 		sr.gates[i].fail <- a[0] == 'f'
+		if a[0] == 'f' {
+			sr.broken = true // the start element is on the wire, the element stays unfinished
+		}
 		sr.ctl.Release(label, "payload")
 		if a[0] == 'o' {
 			sr.rstate[i] = "presel"
@@ -395,12 +434,25 @@ func (sr *sessRun) act(a string) bool {
 		sr.rstate[i] = "insel"
 		sr.ctl.Release("r"+strconv.Itoa(i), "session.sendResp.select")
 		sr.afterEnable(i)
+	case 'C':
+		if sr.outClosed || sr.dead {
+			return false
+		}
+		for _, st := range sr.rstate {
+			if st == "payload" {
+				return false // Close needs the output lock
+			}
+		}
+		sr.trace = append(sr.trace, a)
+		sr.outClosed = true
+		common.WithTimeout(watchdog, func() { sr.rs.S.Close() })
 	case 'p':
-		if sr.serve != "idle" && !(sr.serve == "offering" && sr.hitGone()) {
+		if sr.abandonedBad() || (sr.serve != "idle" && !(sr.serve == "offering" && sr.hitGone())) {
 			return false
 		}
 		p := parsePeer(a)
-		if p.kind == 'i' && (p.typ == 'g' || p.typ == 't' || p.typ == 'n') {
+		if p.bad || (p.kind == 'i' && (p.typ == 'g' || p.typ == 't' || p.typ == 'n')) {
+			// (a bad element makes Serve send a stream error: it needs the output lock too)
 			// the serve loop answers an unhandled get/set itself and needs the output lock
 			for _, st := range sr.rstate {
 				if st == "payload" {
@@ -439,13 +491,69 @@ func (sr *sessRun) act(a string) bool {
 		}
 		if sr.serve == "waitclose" {
 			sr.serve = "idle"
+			sr.afterBadClose(i)
 		} else if sr.serve == "handedpark" {
 			sr.serve = "handedpark-closed"
 		}
+	case 'd':
+		i := num()
+		if i >= len(sr.reqs) || sr.resp[i] == nil || sr.closed[i] {
+			return false
+		}
+		sr.trace = append(sr.trace, a)
+		sr.drain(i)
 	default:
 		return false
 	}
 	return true
+}
+
+func (sr *sessRun) respK(i int) int {
+	k, err := strconv.Atoi(strings.TrimPrefix(sr.outcome[i], "r"))
+	if err != nil {
+		return -1
+	}
+	return k
+}
+
+// drain: the caller reads the response it holds to its end, like UnmarshalIQ / xmlstream.Iter
+// do; a read error in the content closes the response by itself (errCloser).
+func (sr *sessRun) drain(i int) {
+	var rerr error
+	p := common.Recover(func() {
+		for n := 0; n < 1000; n++ {
+			if _, err := sr.resp[i].Token(); err != nil {
+				if err != io.EOF {
+					rerr = err
+				}
+				return
+			}
+		}
+	})
+	if p != "" {
+		sr.r.Fail("no-panic", "read-of-response-panics", sr.lines(), p)
+	}
+	bad := sr.badK[sr.respK(i)]
+	if (rerr != nil) != bad {
+		sr.problem("reading the response of requester %d: error %v, stanza bad=%v", i, rerr, bad)
+	}
+	if bad {
+		// the response has closed itself: the serve loop goes on, cannot read the rest either, Serve returns
+		sr.closed[i] = true
+		if sr.serve == "handedpark" {
+			sr.ctl.Release("serve", "session.serve.handed")
+			sr.trace = append(sr.trace, "h")
+		}
+		sr.awaitServeEnd()
+		sr.closed[i] = false // the caller's own Close is still to come (it must be a no-op)
+	}
+}
+
+// afterBadClose: the caller closed a response whose rest cannot be read: Serve returns.
+func (sr *sessRun) afterBadClose(i int) {
+	if sr.badK[sr.respK(i)] && !sr.dead {
+		sr.awaitServeEnd()
+	}
 }
 
 // hitGone: the serve loop offers to a requester whose context is done (it will abandon).
@@ -473,10 +581,15 @@ func (sr *sessRun) feed(p peerStanza) {
 	k := sr.nread
 	sr.nread++
 	sr.fed = append(sr.fed, p)
+	sr.badK[k] = p.bad
 	outBefore := sr.rs.Out.Len()
 	autoReply := p.kind == 'i' && p.typ != 'r' && p.typ != 'e' // the serve loop answers an unhandled get/set itself
 	defer func() {
 		if !autoReply {
+			return
+		}
+		if sr.broken || sr.outClosed {
+			sr.awaitServeEnd()
 			return
 		}
 		// wait for that reply to be on the wire: it needs the output lock, which the next
@@ -485,7 +598,7 @@ func (sr *sessRun) feed(p peerStanza) {
 			time.Sleep(20 * time.Microsecond)
 		}
 	}()
-	go sr.rs.Feed([]byte(p.xml()))
+	go sr.feedRaw(p)
 	want := sr.lookupShadow(p)
 	if p.typ == 'r' || p.typ == 'e' {
 		if _, ok := sr.wait(isEv("serve", "park:session.serve.lookup"), "serve loop after lookup"); !ok {
@@ -512,6 +625,37 @@ func (sr *sessRun) feed(p peerStanza) {
 	default:
 		sr.hlog = append(sr.hlog, k)
 		sr.trace = append(sr.trace, "H"+strconv.Itoa(k))
+		if p.bad {
+			autoReply = false
+			sr.awaitServeEnd() // the serve loop cannot read the rest of the element
+		}
+	}
+}
+
+func (sr *sessRun) feedRaw(p peerStanza) {
+	sr.rs.Feed([]byte(p.xml()))
+	if p.trunc {
+		sr.rs.In.Close() // the input ends in the middle of the element
+	}
+}
+
+// abandonedBad: the serve loop gave up offering an element whose rest cannot be read: Serve returns.
+func (sr *sessRun) abandonedBad() bool {
+	if !sr.dead && sr.serve == "offering" && sr.hitGone() && sr.badK[sr.hitK] {
+		sr.awaitServeEnd()
+		return true
+	}
+	return sr.dead
+}
+
+// awaitServeEnd: the serve loop had to write on an output that cannot take it; Serve returns.
+func (sr *sessRun) awaitServeEnd() {
+	if e, ok := sr.wait(func(e Ev) bool { return e.Who == "serve" && strings.HasPrefix(e.What, "ret:") }, "Serve to return after a write on a broken / closed output"); ok {
+		sr.dead, sr.outClosed, sr.serve = true, true, "dead"
+		if !strings.Contains(e.What, "abandoned in the middle of an element") && !strings.Contains(e.What, "closed stream") &&
+			!strings.Contains(e.What, "XML syntax error") && !strings.Contains(e.What, "unexpected") {
+			sr.problem("Serve returned %s", e.What)
+		}
 	}
 }
 
@@ -550,11 +694,27 @@ func (sr *sessRun) epilogue() string {
 		sr.trace = append(sr.trace, "h")
 		sr.serve = "idle"
 	}
-	// liveness probe
-	go sr.rs.Feed([]byte(`<message xmlns="jabber:client" id="sentinel" type="chat"/>`))
-	probe := "live"
-	if _, ok := sr.ctl.Wait(watchdog, isEv("handler", "h:message:sentinel"), &sr.skipped); !ok {
-		probe = "stall"
+	sr.abandonedBad()
+	// liveness probe: a further stanza reaches the handler, or Serve has returned because it
+	// had to write on a broken / closed output — never a stall
+	probe := "dead"
+	if !sr.dead {
+		go sr.rs.Feed([]byte(`<message xmlns="jabber:client" id="sentinel" type="chat"/>`))
+		probe = "live"
+		if e, ok := sr.ctl.Wait(watchdog, func(e Ev) bool {
+			return (e.Who == "handler" && e.What == "h:message:sentinel") || (e.Who == "serve" && strings.HasPrefix(e.What, "ret:"))
+		}, &sr.skipped); !ok {
+			probe = "stall"
+		} else if e.Who == "serve" {
+			probe = "dead"
+			anyBad := false
+			for _, b := range sr.badK {
+				anyBad = anyBad || b
+			}
+			if !sr.broken && !sr.outClosed && !anyBad {
+				sr.problem("Serve returned on a healthy output: %s", e.What)
+			}
+		}
 	}
 	for _, e := range sr.ctl.Drain(&sr.skipped) {
 		if strings.HasPrefix(e.What, "panic:") {
